@@ -69,6 +69,23 @@ def get(prog):
             for pref in (grammar_ai.B_F, grammar_ai.B_T):
                 restr = ("agg", "oq3_parser::grammar::expressions::Restrictions", 0, (pref,))
                 lhs_keys[(ai.kname[kbit], pref[1])] = ai.run(LHS, win=((1 << kbit), A, A, A, 0, 0), args=(grammar_ai.PARSER, restr))
+    # ---- list-item probes (C04.1): the expression-list flavours per first token of an item
+    list_keys = {}
+    for fn in ("oq3_parser::grammar::params::expression_list", "oq3_parser::grammar::params::case_value_list", "oq3_parser::grammar::params::array_literal"):
+        if fn not in prog.bodies:
+            continue
+        for kbit in grammar_ai.bits(A):
+            if fn.endswith("array_literal"):
+                w = (1 << ai.kdisc["L_CURLY"], (1 << kbit), A, A, 0, 0)
+            else:
+                w = ((1 << kbit), A, A, A, 0, 0)
+            list_keys[(fn, ai.kname[kbit])] = ai.run(fn, win=w, args=(grammar_ai.PARSER,))
+    # ---- block-statement probes (C16.3): `{ } k ...` in statement position: the block statement must end at its brace
+    blk_keys = {}
+    LC, RC = 1 << ai.kdisc["L_CURLY"], 1 << ai.kdisc["R_CURLY"]
+    for kbit in grammar_ai.bits(A):
+        if STMT in prog.bodies:      # (`item` is not probed: it parses the whole remaining statement list)
+            blk_keys[(STMT, ai.kname[kbit])] = ai.run(STMT, win=(LC, RC, (1 << kbit), A, 0, 0), args=(grammar_ai.PARSER,))
     r = GResult()
     r.cache_hit = False
     r.wall = time.time() - t0
@@ -120,6 +137,8 @@ def get(prog):
     for (kn, pref), k0 in lhs_keys.items():
         outs = ai.memo[k0]
         r.lhs_probe[(kn, pref)] = sorted(set((o[5][0] == "agg" and o[5][2] == 1, o[2], o[1]) for o in outs))   # (returns Some, error, consumed)
+    r.list_probe = {k: sorted(set((o[1], o[2]) for o in ai.memo[k0])) for k, k0 in list_keys.items()}     # (consumed, error)
+    r.block_probe = {k: sorted(set((o[0][0], o[1], o[2]) for o in ai.memo[k0])) for k, k0 in blk_keys.items()}     # (next-token set after the statement, consumed, error)
     r.callargs = {k: sorted(v, key=repr) for k, v in ai.callargs.items()}
     r.memo = {k: sorted(v, key=repr) for k, v in ai.memo.items()}
     r.rootkey = rootkey
